@@ -36,7 +36,11 @@ def gen_case(seed):
             elif x < 0.66: ops.append(f"{r.choice(['churn', 'churnd'])} {c} {r.randint(2, 12)} {xs(r.choice(['a/b', 'b', 'g/x']))}")
             elif x < 0.72: ops.append(f"pdel {c} {xs(r.choice(PATS))}")
             elif x < 0.80: ops.append(f"set {c} {xs(gg(c))} {js([r.choice(PATS + [f'own{c}/#']) for _ in range(r.randint(0, 2))])}")
-            elif x < 0.82: ops.append(f"del {c} {xs(r.choice([gg(c), lw(c)]))}")            # a registration is withdrawn (F28)
+            elif x < 0.815: ops.append(f"del {c} {xs(r.choice([gg(c), lw(c)]))}")            # a registration is withdrawn (F28)
+            elif x < 0.82:
+                o = r.choice(sorted(connected))
+                # ... through a pattern: the own key, or (first segment a wildcard: F4) somebody's
+                ops.append(f"pdel {c} {xs(r.choice([gg(c), lw(c), '?/clients/@CID%d@/graveGoods' % o, '?/clients/?/lastWill']))}")
             elif x < 0.92: ops.append(f"set {c} {xs(lw(c))} {js([{'key': r.choice([f'own{c}/x', f'own{c}/y/z', f'lwz{c}']), 'value': val()} for _ in range(r.randint(0, 2))])}")
             else:
                 connected.discard(c); ops.append(f"disc {c}")
